@@ -92,7 +92,20 @@ def make_source(case, src):
                 present[crng.randrange(n_il), crng.randrange(n_xl)] = False
             present[0, n_xl - 1] = True       # keep the corners that fix the inferred geometry
             present[n_il - 1, 0] = True
-    mk_segy(sgy, data, list(range(10, 10 + n_il)), list(range(100, 100 + 2 * n_xl, 2)), present=present, hdr=HDRCFG[case['cfg']])
+    for attempt in range(30):
+        mk_segy(sgy, data, list(range(10, 10 + n_il)), list(range(100, 100 + 2 * n_xl, 2)), present=present, hdr=HDRCFG[case['cfg']])
+        if present is None:
+            break
+        # known finding D27 (C08): segyio's count-only inference takes some irregular surveys for regular cubes; such a
+        # file is not an irregular source (the converter would not take the irregular route): alter the mask and retry
+        try:
+            with segyio.open(sgy):
+                pass
+        except Exception:
+            break
+        present[crng.randrange(n_il), crng.randrange(n_xl)] ^= True
+        present[0, 0] = False
+        present[0, n_xl - 1] = present[n_il - 1, 0] = True
     write_segy_sgz(sgy, src, bpv=case.get('bpv', 2), blockshape=case.get('blockshape'),
                    header_detection='strip' if case['cfg'] == 'strip' else 'heuristic')
     os.remove(sgy)
